@@ -142,6 +142,52 @@ def harness(ck, members, N, solver, opts, label):
                        "code_value": str(got[keys[0]])[:300] if keys else None})
 
 
+def harness_assembly(ck, member):
+    """moments are taken about *that aircraft's CG*: the moment arms stored by the real assembly are PC - (p + R(q) CG) for arbitrary pose"""
+    import machupX as MX
+    from machupX.helpers import quat_inv_trans
+    from checks.families import family_G
+
+    def run():
+        c = ctx()
+        q = [sym("aq%d" % i) for i in range(4)]
+        c.declare_unit(q)
+        pv = [sym("apx"), sym("apy"), sym("apz")]
+        sc = MX.Scene({"units": "English", "scene": {"atmosphere": {"rho": 0.0023769}}})
+        sc.add_aircraft("p", family_G(member, N=2), state={"velocity": [100.0, 0.0, 5.0]})
+        sc.add_aircraft("o", family_G("g3", N=2), state={"velocity": [100.0, 0.0, 5.0], "position": [20.0, 10.0, -5.0], "orientation": [5.0, 10.0, 15.0]})
+        ap = sc._airplanes["p"]
+        ap.q = facade.wrap(np.array(q, dtype=object))
+        ap.p_bar = facade.wrap(np.array(pv, dtype=object))
+        sc._perform_geometry_and_atmos_calcs()
+        out = []
+        for apx, sl in zip(sc._airplane_objects, sc._airplane_slices):
+            cg_e = apx.p_bar + quat_inv_trans(apx.q, apx.CG)
+            for i in range(sl.start, sl.stop):
+                out.append((sc._r_CG[i], [sc._PC[i][a] - cg_e[a] for a in range(3)]))
+        return out
+    res = explore(run, max_paths=3)
+    ck.add_paths(res)
+    for p in res:
+        if not p.ok:
+            ck.inconc("assembly %s: %s %r" % (member, p.kind, p.exc))
+            continue
+        mk = lambda ob: Finding("loads", {"members": [member], "N": 2, "solver": {}, "opts": {}}, ob.label, ob.model)
+        for i, (got, want) in enumerate(p.value):
+            if all(SR(x).c is not None for x in list(got) + list(want)):
+                # the second (concrete) aircraft: floating-point evaluation on both sides, compared with a tolerance
+                g = z3.BoolVal(bool(np.allclose([float(x) for x in got], [float(x) for x in want], rtol=1e-12, atol=1e-12)))
+            else:
+                # body-frame PC - CG is rounded once by the code (floats) before it is rotated: compare within 1e-9 (lengths are O(1..10))
+                terms = []
+                for a in range(3):
+                    d = zexpr(SR(got[a])) - zexpr(SR(want[a]))
+                    terms += [d <= z3.RealVal("1e-9"), -d <= z3.RealVal("1e-9")]
+                g = z3.And(*terms)
+            ck.add([Obligation("assembly %s moment arm %d == control point - CG (Earth frame)" % (member, i), list(p.ctx.assumptions) + cone_defs(p.ctx, [g]), g, meta={"finding": mk})])
+        ck.add([Obligation("assembly %s canary" % member, list(p.ctx.assumptions), zexpr(SR(p.value[0][0][0])) == zexpr(SR(p.value[0][1][0])) + 1, canary=True)])
+
+
 # ---- replay: the same reference against the real code with floats ---------------------------------------------------------
 def replay_loads(inp):
     """Concrete scene (real solver), then the reference integration from the scene's own section arrays, compared key by key."""
@@ -186,7 +232,7 @@ def replay_loads(inp):
 def _ref_float(sc, opts):
     """float version of kernel.ref_loads using the arrays of a solved real scene"""
     import numpy as np
-    from machupX.helpers import quat_trans
+    from machupX.helpers import quat_trans, quat_inv_trans
     st = {"_v_inf_and_rot": None}
     out = {}
     v = sc._v_i
@@ -224,8 +270,9 @@ def _ref_float(sc, opts):
                     qpl = 0.5 * sc._rho[i] * sc._V_inf_in_plane[i] ** 2 * sc._dS[i] if sc._use_in_plane else qfull
                 dFv = qfull * sc._CD[i] * udrag
                 Finv += dFi; Fvis += dFv
-                Minv += np.cross(sc._r_CG[i], dFi) + qpl * sc._c_bar[i] * sc._Cm[i] * sc._u_s[i]
-                Mvis += np.cross(sc._r_CG[i], dFv)
+                arm = sc._PC[i] - (ap.p_bar + quat_inv_trans(q, ap.CG))       # moment arm about this aircraft's CG, independent of the stored _r_CG
+                Minv += np.cross(arm, dFi) + qpl * sc._c_bar[i] * sc._Cm[i] * sc._u_s[i]
+                Mvis += np.cross(arm, dFv)
             idx += seg.N
             segs.append((seg.name, [quat_trans(q, x) for x in (Finv, Minv, Fvis, Mvis)]))
         frames = [f for f, on in (("body", opts.get("body_frame", True)), ("stab", opts.get("stab_frame", False)), ("wind", opts.get("wind_frame", True))) if on]
@@ -265,7 +312,7 @@ def main(tier, seed, only=None):
     ck.portfolio = (("/usr/bin/z3", 1.0), ("z3api", 1.0), ("cvc5", 1.0))     # z3 4.8.12 is the fastest on these polynomial identities
     facade.install()
     import machupX.scene as SC
-    ck.encoded(SC.Scene._integrate_forces_and_moments, SC.Scene.distributions, SC.Scene._calc_v_i, SC.Scene._get_frames)
+    ck.encoded(SC.Scene._integrate_forces_and_moments, SC.Scene.distributions, SC.Scene._calc_v_i, SC.Scene._get_frames, SC.Scene._perform_geometry_and_atmos_calcs)
     import machupX.helpers as H
     ck.encoded(H.quat_trans, H.quat_inv_trans)
     ck.stub("airfoil: section coefficients are uninterpreted functions of (airfoil, coefficient, alpha, Re, M, flap deflection, flap fraction) per control point",
@@ -288,6 +335,9 @@ def main(tier, seed, only=None):
             if only and not any(o in label for o in only):
                 continue
             tasks.append((label, lambda c, members=members, N=N, solver=solver, opts=opts, label=label: harness(c, members, N, solver, opts, label)))
+    if not only or "assembly" in only:
+        tasks.append(("assembly g1", lambda c: harness_assembly(c, "g1")))
+        tasks.append(("assembly g3", lambda c: harness_assembly(c, "g3")))
     run_parallel(ck, tasks)
     ck.bound(sections="N <= 7 vortices per aircraft, N <= 8 per scene, <= 2 aircraft, <= 4 segments", option_sets=len(plan), pre_state="all arrays fresh symbols (any geometry of that size)")
     ck.rung("rung 2: kernel harness on arbitrary pre-states")
